@@ -16,6 +16,8 @@
 //!                                        layout (round 3: the Repr-level models of C05 predict value, length and inline flag)
 //!        op: div rem divrem diveu remeu divremeu (IBig, the signed forms)  udivrem udiv urem (UBig on |a|, |b|)
 //!            and_F or_F xor_F with F in vv vr rv rr (IBig)  not notref  shr shrref shl shlref (IBig, b = amount)
+//!   fprod base mode op prec s1 e1 s2 e2  Context::<mode>::new(prec).op(x, y) on Reprs (op: add sub mul div inv sqrt sqr cubic): the
+//!                                        result Repr with its flag, the digit estimates of the operands, the layout of the significand
 //!   dub  base sig                        Repr::<base>::digits_ub / digits_lb of the significand with the f32 estimates they
 //!                                        are computed from: bits of sig.log2_bounds() and of BASE.log2_bounds()
 #![allow(deprecated)]
@@ -953,6 +955,47 @@ fn run_iop(a: &[&str]) -> String {
     out
 }
 
+fn fprod_b<R: Round + 'static, const B: Word>(op: &str, prec: usize, a: &[&str]) -> String {
+    let x = repr_of::<B>(a[0], a[1]);
+    let y = repr_of::<B>(a[2], a[3]);
+    let c = Context::<R>::new(prec);
+    let est = |r: &Repr<B>| if r.is_infinite() { (0, 0) } else { (r.digits_ub(), r.digits_lb()) };
+    let (dx, _) = est(&x);
+    let (dy, ly) = est(&y);
+    let r = match op {
+        "add" => c.add(&x, &y),
+        "sub" => c.sub(&x, &y),
+        "mul" => c.mul(&x, &y),
+        "div" => c.div(&x, &y),
+        "inv" => c.inv(&x),
+        "sqrt" => c.sqrt(&x),
+        "sqr" => c.sqr(&x),
+        "cubic" => c.cubic(&x),
+        other => panic!("unknown float operation {}", other),
+    };
+    let v = match &r {
+        Exact(v) => v,
+        Inexact(v, _) => v,
+    };
+    format!("ok {} {:x} {:x} {:x} {}", hrounded(&r), dx, dy, ly, lay(repr_layout_ibig(v.repr().significand())))
+}
+
+fn run_fprod(a: &[&str]) -> String {
+    let prec = usz(a[3]);
+    macro_rules! go {
+        ($b:literal) => {
+            with_mode!(a[1], |R| fprod_b::<R, $b>(a[2], prec, &a[4..]))
+        };
+    }
+    match a[0] {
+        "2" => go!(2),
+        "3" => go!(3),
+        "a" => go!(10),
+        "10" => go!(16),
+        other => panic!("unsupported base {}", other),
+    }
+}
+
 fn dub_b<const B: Word>(sig: &str) -> String {
     let r = Repr::<B>::new(ibig(sig), 0);
     let s = r.significand();
@@ -988,6 +1031,7 @@ fn run(op: &str, a: &[&str]) -> String {
     match op {
         "iop" => run_iop(a),
         "dub" => run_dub(a),
+        "fprod" => run_fprod(a),
         "uint" => run_uint(a),
         "int" => run_int(a),
         "flt" => run_flt(a),
